@@ -123,6 +123,28 @@ func (aux *Aux) updateDefaultCaller() {
 	}
 }
 
+// AccessorOnly returns true if the generic function has methods and none of
+// them was defined with Lisp code, as is the case for a reader, writer, or
+// accessor generic function created by the slot options of defclass. The
+// defining defclass recreates such a generic function.
+func (aux *Aux) AccessorOnly() bool {
+	aux.moo.Lock()
+	defer aux.moo.Unlock()
+	if len(aux.methods) == 0 {
+		return false
+	}
+	for _, m := range aux.methods {
+		for _, c := range m.Combinations {
+			for _, caller := range []slip.Caller{c.Primary, c.Before, c.After, c.Wrap} {
+				if _, ok := caller.(*slip.Lambda); ok {
+					return false
+				}
+			}
+		}
+	}
+	return true
+}
+
 // LoadForm returns a list that can be evaluated to define a generic and all
 // specialized methods for the generic.
 func (aux *Aux) LoadForm() slip.Object {
